@@ -35,7 +35,7 @@ func init() {
 	register(PropSpec{
 		ID:    "C07",
 		Title: "No unresolved $required or stray directive ever reaches the output",
-		Rules: []func(*Prog, *Result){ruleOutputGate("C07"), ruleValidate("C07"), ruleMarshalRoute},
+		Rules: []func(*Prog, *Result){ruleOutputGate("C07"), ruleValidate("C07"), ruleMarshalRoute, ruleC07Encode("C07.encode")},
 	})
 	register(PropSpec{
 		ID:    "C11",
@@ -61,6 +61,21 @@ func init() {
 		ID:    "C04",
 		Title: "Results do not depend on which format (JSON/YAML/TOML) a layer is written in",
 		Rules: []func(*Prog, *Result){ruleC04Census, ruleC04Float, ruleC04Normalised("C04.normalised"), ruleC04Ext},
+	})
+	register(PropSpec{
+		ID:    "C12",
+		Title: "$repeat expands to exactly n indexed copies (cartesian product for named counts)",
+		Rules: []func(*Prog, *Result){ruleC12Loops, ruleC12Docs, ruleCloneContract("C12.copy")},
+	})
+	register(PropSpec{
+		ID:    "C13",
+		Title: "Interpolation and $env substitute exactly the referenced values",
+		Rules: []func(*Prog, *Result){ruleC13, ruleC13Vars},
+	})
+	register(PropSpec{
+		ID:    "C14",
+		Title: "$encode produces the named standard encodings and $decode inverts them",
+		Rules: []func(*Prog, *Result){ruleC14, ruleC14Decode, ruleC07Encode("C14.validate"), ruleC04Normalised("C14.inverse")},
 	})
 	register(PropSpec{
 		ID:    "C09",
